@@ -21,6 +21,8 @@ type exit struct {
 	kind int
 	val  Value // TupleV / single value / nil
 	pmsg string
+	park *parkedG // exitPark
+	wait ObjID    // exitPark returned by a blocking stub: the object to wait on
 }
 
 // runFunction explores fn from its entry under state st and returns the
@@ -53,15 +55,7 @@ func (e *Engine) runFunction(st *State, fn *ssa.Function, args []Value, free []V
 	var q pqueue
 	q.push(item{st, fr})
 	var exits []exit
-	for len(q.items) > 0 {
-		group := q.popGroup()
-		if len(group) > 1 && !e.opt.NoMerge {
-			group = e.mergeGroup(group)
-		}
-		for _, it := range group {
-			e.execBlock(it.st, it.fr, 0, &q, &exits)
-		}
-	}
+	e.runLoop(&q, &exits)
 	return e.mergeExits(exits, fr.entryNext)
 }
 
@@ -206,6 +200,14 @@ func (e *Engine) feasibleM(st *State, extra *Term, what string) (bool, Model) {
 	if st.model != nil && modelHolds(st.model, extra) {
 		e.stats.CacheHits++
 		return true, st.model
+	}
+	switch e.quickDecide(st, extra) {
+	case 0:
+		e.stats.RangeHits++
+		return false, nil
+	case 1:
+		e.stats.RangeHits++
+		return true, nil // implied by the recorded ranges; pc itself is satisfiable (invariant)
 	}
 	// constraint independence: pc is satisfiable (invariant), so only the conjuncts that share
 	// variables (transitively) with extra can matter
@@ -566,10 +568,16 @@ func (e *Engine) execBlock(st *State, fr *Frame, idx int, q *pqueue, exits *[]ex
 			continue
 		case *ssa.Go:
 			fv, args := e.prepareCall(st, fr, &x.Call)
-			if !e.spawn(st, fr, fv, args, &x.Call) {
-				panic(unsupported("go statement in " + fr.fn.String()))
+			for _, s2 := range e.spawn(st, fr, fv, args, &x.Call, exits) {
+				e.execBlock(s2, fr.clone(), i+1, q, exits)
 			}
-			continue
+			return
+		case *ssa.Send:
+			ch := e.get(fr, x.Chan).(ChanV)
+			for _, s2 := range e.schedSend(st, fr, i, ch, e.get(fr, x.X), x.Pos(), exits) {
+				e.execBlock(s2, fr.clone(), i+1, q, exits)
+			}
+			return
 		case *ssa.Call:
 			fv, args := e.prepareCall(st, fr, &x.Call)
 			res := e.callValue(st, fr, fv, args, &x.Call, x)
@@ -583,12 +591,29 @@ func (e *Engine) execBlock(st *State, fr *Frame, idx int, q *pqueue, exits *[]ex
 					e.finish(r.st, fr.clone(), exitPanic, nil, r.pmsg, exits)
 					continue
 				}
+				if r.kind == exitPark {
+					// a blocking model (socket read): wait at this call, which is re-executed on wake-up
+					e.blockHere(r.st, fr, i, r.wait, r.pmsg, x.Pos(), exits)
+					continue
+				}
 				f2 := fr.clone()
 				f2.regs[x] = r.val
 				e.stats.States++
 				e.execBlock(r.st, f2, i+1, q, exits)
 			}
 			return
+		case *ssa.UnOp:
+			if x.Op == token.ARROW {
+				v, ok := e.schedRecv(st, fr, i, x, exits)
+				if !ok {
+					return
+				}
+				fr.regs[x] = v
+				continue
+			}
+			if !e.step(st, fr, ins, i, q, exits) {
+				return
+			}
 		default:
 			if !e.step(st, fr, ins, i, q, exits) {
 				return
@@ -940,6 +965,18 @@ func (e *Engine) step(st *State, fr *Frame, ins ssa.Instruction, idx int, q *pqu
 		}
 		fr.regs[x] = FuncV{Fn: fn, Free: free}
 	case *ssa.Slice:
+		if sv, isStr := e.get(fr, x.X).(StrV); isStr && !sv.Opaque {
+			// string slicing needs concrete bounds: case split on the feasible values of a symbolic bound
+			for _, b := range []ssa.Value{x.Low, x.High} {
+				if b == nil {
+					continue
+				}
+				if t, ok := e.get(fr, b).(*Term); ok && !t.IsConst() {
+					e.forkOnValue(st, fr, b, len(sv.B), idx, q, exits)
+					return false
+				}
+			}
+		}
 		v, ok := e.sliceOp(st, fr, x, exits)
 		if !ok {
 			return false
@@ -998,11 +1035,6 @@ func (e *Engine) step(st *State, fr *Frame, ins ssa.Instruction, idx int, q *pqu
 		}
 	case *ssa.Next:
 		return e.next(st, fr, x, idx, q, exits)
-	case *ssa.Send:
-		ch := e.get(fr, x.Chan).(ChanV)
-		if !e.chanSend(st, ch, e.get(fr, x.X)) {
-			panic(unsupported("blocking channel send at " + e.posString(x.Pos())))
-		}
 	case *ssa.Select:
 		panic(unsupported("select statement"))
 	default:
@@ -1029,6 +1061,40 @@ func (e *Engine) forkIndex(st *State, fr *Frame, x ssa.Value, ifk indexFork, idx
 		s2.assume(e.tc.Eq(ifk.idx, e.tc.BV(uint64(i), w)))
 		f2.regs[x] = ifk.elems[i]
 		e.execBlock(s2, f2, idx+1, q, exits)
+	}
+}
+
+// forkOnValue continues one state per feasible value 0..max of the integer register v (re-executing the
+// instruction at idx with the register made concrete); values outside 0..max continue symbolically only if
+// feasible, in which case the instruction reports what it cannot do.
+func (e *Engine) forkOnValue(st *State, fr *Frame, v ssa.Value, max int, idx int, q *pqueue, exits *[]exit) {
+	t := e.get(fr, v).(*Term)
+	w := t.Sort.W
+	var feas []int
+	inRange := e.tc.False
+	for i := 0; i <= max; i++ {
+		eq := e.tc.Eq(t, e.tc.BV(uint64(i), w))
+		inRange = e.tc.Or(inRange, eq)
+		if e.feasible(st, eq, "value split") {
+			feas = append(feas, i)
+		}
+	}
+	if e.feasible(st, e.tc.Not(inRange), "value split (out of range)") {
+		// out of range: the slice operation panics (bounds); continue that side with a definitely bad constant
+		s2, f2 := st.fork(), fr.clone()
+		e.stats.States++
+		s2.assume(e.tc.Not(inRange))
+		e.panicExit(s2, f2, "slice bounds out of range (symbolic bound)", v.Pos(), exits)
+	}
+	for k, i := range feas {
+		s2, f2 := st, fr
+		if k < len(feas)-1 {
+			s2, f2 = st.fork(), fr.clone()
+			e.stats.States++
+		}
+		s2.assume(e.tc.Eq(t, e.tc.BV(uint64(i), w)))
+		f2.regs[v] = e.tc.BV(uint64(i), w)
+		e.execBlock(s2, f2, idx, q, exits)
 	}
 }
 
